@@ -93,8 +93,8 @@ Proof.
   - destruct (t_old_cython tk) as [[| | |]|]; inversion H; reflexivity.
   - inversion H; reflexivity.
   - inversion H; reflexivity.
-  - inversion H; subst. unfold uncap, uncapture. destruct (t_capture_started tk); [|reflexivity].
-    destruct (get k_saved_showwarning s) as [[| | |]|]; reflexivity.
+  - cbn in H. destruct (t_capture_started tk); [|inversion H; reflexivity].
+    unfold uncapture in H. destruct (get k_saved_showwarning s) as [[| | |]|]; inversion H; reflexivity.
   - eapply end_patch_heap; eauto.
   - destruct (mem_n (e_hook e) (meta s)); inversion H; reflexivity.
   - match type of H with (if ?c then _ else _) = _ => destruct c end; inversion H; reflexivity.
@@ -328,10 +328,11 @@ Theorem capture_warnings_undone : forall root hook cy p s v w,
   forallb (fun o => negb (touches k_saved_showwarning o)) (fst p) = true ->
   get k_showwarning s = Some v -> v <> VNone -> v <> v_logging_showwarning ->
   get k_saved_showwarning s = Some w ->
+  callable (mk_env root hook cy false s) (pre_exit_state (mk_env root hook cy false s) p s) = true ->
   exists s', analyse root hook cy false p s = Alive s' /\
     get k_showwarning s' = get k_showwarning s /\ get k_saved_showwarning s' = get k_saved_showwarning s.
 Proof.
-  intros root hook cy p s v w HE CY T1 T2 GV NV NL GW.
+  intros root hook cy p s v w HE CY T1 T2 GV NV NL GW CA.
   set (e := mk_env root hook cy false s). set (s0 := with_vcwd root s).
   destruct (patch_enter outer_patched outer_base s0) as [s1 ot] eqn:PE.
   destruct (patch_enter_spec _ _ _ _ _ PE outer_nodup) as ([F1 _] & _).
@@ -344,8 +345,10 @@ Proof.
   assert (N2 : novalue (e_real_exit e) s2).
   { eapply enter_parse_novalue_exit; eauto. eapply nve_patch_enter; eauto. }
   pose proof (body_not_died e p s2 HrE N2) as ND.
-  destruct (analyse_inl root hook cy p s s1 ot s2 tk PE EP ND) as (s' & A & _ & _ & SW & SV & _).
+  destruct (analyse_inl root hook cy p s s1 ot s2 tk PE EP ND) as (s' & A & _ & _ & SW & _).
   exists s'. split; [exact A|].
+  unfold pre_exit_state in CA. change (e_root (mk_env root hook cy false s)) with root in CA. fold s0 in CA.
+  rewrite PE in CA. fold e in CA. rewrite EP in CA.
   (* the two attributes in the state the restores start from *)
   pose proof EP as EP'. rewrite enter_parse_unfold in EP'.
   pose proof (pre_begin_capture e s1) as PC.
@@ -370,8 +373,19 @@ Proof.
   { rewrite (GP _ T2). apply G6; [exact IV|discriminate]. }
   assert (GV1 : get k_showwarning s1 = Some v) by (rewrite (G1 _ IS); exact GV).
   assert (GW1 : get k_saved_showwarning s1 = Some w) by (rewrite (G1 _ IV); exact GW).
-  rewrite SW, SV. change (fst (body (mk_env root hook cy false s) p s6)) with sp.
-  unfold uncap. cbn [t_capture_started]. unfold capture_started.
+  assert (MEM : mem_n hook (meta sp) = true).
+  { unfold sp, body. cbn [fst]. rewrite run_ops_meta.
+    rewrite (proj1 (proj2 (proj2 (do_chdir_facts _ _ _ _)))).
+    assert (M6 : meta s6 = meta s4 ++ [hook]).
+    { pose proof (patch_enter_rest inner_patched inner_base (with_meta (meta s4 ++ [e_hook e]) s4)) as R6.
+      rewrite PI in R6. cbn in R6. unfold rest in R6. exact (f_equal (fun x => snd (fst x)) R6). }
+    destruct path_insert_in_try; cbn [meta with_path]; rewrite M6; apply mem_n_app_last. }
+  assert (CA' : callable e sp = true) by exact CA.
+  assert (FIN : get k_saved_showwarning sp <> None ->
+                get k_showwarning s' = get k_showwarning (uncap (mkToks oldc bt it (capture_started s1) (path s4)) sp) /\
+                get k_saved_showwarning s' = get k_saved_showwarning (uncap (mkToks oldc bt it (capture_started s1) (path s4)) sp)).
+  { intros GS. exact (SW MEM CA' GS). }
+  unfold uncap in FIN. cbn [t_capture_started] in FIN. unfold capture_started in FIN.
   rewrite GV, GW.
   destruct w as [|n|n|n].
   - (* not capturing before: this call switched it on *)
@@ -379,16 +393,24 @@ Proof.
     { unfold capture_warnings. rewrite GW1. apply get_set_eq. }
     assert (CV : get k_saved_showwarning (capture_warnings s1) = Some v).
     { unfold capture_warnings. rewrite GW1. cbv iota. rewrite get_set_neq by discriminate. rewrite get_set_eq, GV1. reflexivity. }
+    assert (GS : get k_saved_showwarning sp <> None) by (rewrite PV, CV; discriminate).
+    destruct (FIN GS) as [F1' F2']. rewrite F1', F2'. clear FIN F1' F2'.
     rewrite CS, GV1. cbn [ov_eqb].
     assert (NE : value_eqb v_logging_showwarning v = false).
     { destruct (value_eqb v_logging_showwarning v) eqn:E; auto. apply value_eqb_eq in E. congruence. }
     rewrite NE. cbn [negb]. unfold uncapture. rewrite PV, CV.
     destruct v; try contradiction; (split; [rewrite get_set_neq by discriminate; apply get_set_eq|apply get_set_eq]).
   - assert (CW : capture_warnings s1 = s1) by (unfold capture_warnings; rewrite GW1; reflexivity).
+    assert (GS : get k_saved_showwarning sp <> None) by (rewrite PV, CW, GW1; discriminate).
+    destruct (FIN GS) as [F1' F2']. rewrite F1', F2'. clear FIN F1' F2'.
     rewrite CW, GV1. cbn [ov_eqb]. rewrite value_eqb_refl. cbn [negb]. rewrite PS, PV, CW. split; congruence.
   - assert (CW : capture_warnings s1 = s1) by (unfold capture_warnings; rewrite GW1; reflexivity).
+    assert (GS : get k_saved_showwarning sp <> None) by (rewrite PV, CW, GW1; discriminate).
+    destruct (FIN GS) as [F1' F2']. rewrite F1', F2'. clear FIN F1' F2'.
     rewrite CW, GV1. cbn [ov_eqb]. rewrite value_eqb_refl. cbn [negb]. rewrite PS, PV, CW. split; congruence.
   - assert (CW : capture_warnings s1 = s1) by (unfold capture_warnings; rewrite GW1; reflexivity).
+    assert (GS : get k_saved_showwarning sp <> None) by (rewrite PV, CW, GW1; discriminate).
+    destruct (FIN GS) as [F1' F2']. rewrite F1', F2'. clear FIN F1' F2'.
     rewrite CW, GV1. cbn [ov_eqb]. rewrite value_eqb_refl. cbn [negb]. rewrite PS, PV, CW. split; congruence.
 Qed.
 
@@ -396,5 +418,11 @@ Example capture_warnings_undone_applies :
   host_function_unaliased k_exit ex_state /\
   forallb (fun o => negb (touches k_showwarning o)) (fst ex_program) = true /\
   forallb (fun o => negb (touches k_saved_showwarning o)) (fst ex_program) = true /\
-  get k_showwarning ex_state = Some (VOrig 90) /\ get k_saved_showwarning ex_state = Some VNone.
-Proof. split; [apply unaliased_b_sound; vm_compute; reflexivity|]. repeat split; vm_compute; reflexivity. Qed.
+  get k_showwarning ex_state = Some (VOrig 90) /\ get k_saved_showwarning ex_state = Some VNone /\
+  callable (mk_env ex_root ex_hook false false ex_state)
+           (pre_exit_state (mk_env ex_root ex_hook false false ex_state) ex_program ex_state) = true.
+Proof.
+  split; [apply unaliased_b_sound; vm_compute; reflexivity|].
+  split; [vm_compute; reflexivity|]. split; [vm_compute; reflexivity|]. split; [vm_compute; reflexivity|].
+  split; vm_compute; reflexivity.
+Qed.
